@@ -30,7 +30,7 @@ for d in sorted(os.listdir(S)):
     r = res.get(d, {})
     fired = {k: v for k, v in r.get('checks', {}).items() if v != 'ok'}
     meta = dict(
-        seed=d, property=d[:3], batch=2 if d.endswith('-b') else 1,
+        seed=d, property=('C02' if d == 'M01' else d[:3]), batch=2 if d.endswith('-b') else 1,
         files_changed=files,
         change=section(md, r'change|idea') or md.split('\n')[0].lstrip('# '),
         breaks=section(md, r'break|statement'),
